@@ -259,13 +259,8 @@ func (vc *VC) val(fr *Frame, v ssa.Value) string {
 	if lv := vc.addrOf(fr, nil, v); lv != nil {
 		// interior pointer used as a value: opaque but functional in (location)
 		switch lv.kind {
-		case lvHeap:
-			fn := "ptr$" + vc.heapMapName(lv.root, lv.path)
-			vc.declareFun(fn, []string{"Int"}, "Int")
-			return app(smtName(fn), lv.ref)
-		case lvLocal, lvGlobal:
-			vc.declare("ptr$"+lv.sv, "Int")
-			return smtName("ptr$" + lv.sv)
+		case lvHeap, lvLocal, lvGlobal:
+			return vc.lockAddr(lv)
 		case lvMem:
 			vc.declareFun("ptr$mem", []string{"Int", "Int"}, "Int")
 			if len(lv.idx) == 1 {
